@@ -175,6 +175,12 @@ class Ops(object):
             a = self.unwrap_opt(a, "left operand")
         if isinstance(b, Opt):
             b = self.unwrap_opt(b, "right operand")
+        if isinstance(op, (ast.Add, ast.Sub, ast.Mult)):
+            # bool is a subclass of int: a symbolic truth value in arithmetic counts 1 / 0
+            if is_z3(a) and z3.is_bool(a) and (is_num(b) or (is_z3(b) and z3.is_bool(b))):
+                a = z3.If(a, 1, 0)
+            if is_z3(b) and z3.is_bool(b) and is_num(a):
+                b = z3.If(b, 1, 0)
         # fully concrete: python semantics directly
         if is_concrete(a) and is_concrete(b) and a is not None and b is not None:
             try:
@@ -193,6 +199,10 @@ class Ops(object):
             return PyList(a.items + b.items)
         if isinstance(a, PyList) and isinstance(op, ast.Mult) and concrete_int(b) is not None:
             return PyList(a.items * concrete_int(b))
+        if isinstance(a, PyList) and isinstance(op, ast.Mult) and is_z3(b) and z3.is_int(b):
+            return self.list_repeat(a.items, b, node)
+        if isinstance(a, PyList) and isinstance(b, SymList) and isinstance(op, ast.Add):
+            return self.seq_binop(op, a, b, node)
         if isinstance(a, tuple) and isinstance(b, tuple) and isinstance(op, ast.Add):
             return a + b
         if isinstance(a, tuple) and isinstance(op, ast.Mult) and concrete_int(b) is not None:
@@ -637,7 +647,45 @@ class Ops(object):
         raise OutsideSubset("membership test in %r" % (container,), node)
 
     def seq_binop(self, op, a, b, node):
-        raise OutsideSubset("sequence operation", node)
+        """list concatenation with a symbolic-length operand: a fresh list whose elements are constrained pointwise"""
+        if not isinstance(op, ast.Add):
+            raise OutsideSubset("sequence operation %s" % type(op).__name__, node)
+
+        def parts(v):
+            if isinstance(v, SymList):
+                return v.arr.sort().range(), v.n, (lambda k: z3.Select(v.arr, k)), None
+            if isinstance(v, PyList):
+                return None, z3.IntVal(len(v.items)), None, [to_z3(x) for x in v.items]
+            raise OutsideSubset("sequence operation on %r" % (v,), node)
+        sa, na, fa, ia = parts(a)
+        sb, nb, fb, ib = parts(b)
+        srt = sa if sa is not None else sb
+        R = z3.Array(self.fresh_name("cat"), z3.IntSort(), srt)
+        k = z3.Int(self.fresh_name("k"))
+        if fa is not None:
+            self.assume(z3.ForAll([k], z3.Implies(z3.And(0 <= k, k < na), z3.Select(R, k) == fa(k))))
+        else:
+            for j, x in enumerate(ia):
+                self.assume(z3.Select(R, j) == x)
+        if fb is not None:
+            self.assume(z3.ForAll([k], z3.Implies(z3.And(0 <= k, k < nb), z3.Select(R, na + k) == fb(k))))
+        else:
+            for j, x in enumerate(ib):
+                self.assume(z3.Select(R, na + j) == x)
+        kind = a.kind if isinstance(a, SymList) else b.kind
+        return SymList(R, na + nb, kind)
+
+    def list_repeat(self, items, count, node=None):
+        """[x] * n with a symbolic n"""
+        if len(items) != 1:
+            raise OutsideSubset("repetition of a list of %d items a symbolic number of times" % len(items), node)
+        x = to_z3(items[0])
+        count = to_z3(count)
+        R = z3.Array(self.fresh_name("rep"), z3.IntSort(), x.sort())
+        k = z3.Int(self.fresh_name("k"))
+        n = z3.If(count > 0, count, 0)
+        self.assume(z3.ForAll([k], z3.Implies(z3.And(0 <= k, k < n), z3.Select(R, k) == x)))
+        return SymList(R, n, "list")
 
     def seq_compare(self, op, a, b, node):
         raise OutsideSubset("sequence comparison", node)
